@@ -84,6 +84,14 @@ Theorem run_refines_configuration :
   forall re_ok re_match hist, plain_history hist -> refines re_match (run re_ok re_match hist) (config re_ok hist).
 Proof. exact run_refines. Qed.
 
+(** the answer to every add / remove request is a function of the
+    configuration reached so far (never of the trie's shape or history) *)
+Theorem op_results_depend_on_configuration :
+  forall re_ok re_match hist o,
+    plain_history (hist ++ [o]) ->
+    op_result_rt re_ok re_match (run re_ok re_match hist) o = op_result_cfg re_ok (config re_ok hist) o.
+Proof. exact op_results_from_config. Qed.
+
 (** lookup_refines_spec: for every history and every request, the route is the
     documented choice on the configuration — first matching pre rule in order;
     else, among the rules of the request's own hostname (or, when it has
@@ -241,4 +249,44 @@ Proof.
   cbv zeta. split; [repeat constructor; cbn; discriminate|].
   split; [repeat constructor; cbn; discriminate|].
   split; [cbn; discriminate|]. split; vm_compute; reflexivity.
+Qed.
+
+(** two accepted tree frontends on the same host, distinct identities: the
+    hypotheses of [permuted_adds_route_identically] hold and both orders route
+    "/a/b" to the longer prefix *)
+Example permuted_nonvacuous :
+  let f1 := w_front w_x_a_com [47]%N [48]%N in
+  let f2 := w_front w_x_a_com [47; 97]%N [49]%N in
+  Forall (tree_front_ok (fun _ => true)) [f1; f2] /\ NoDup (map (tree_ident (fun _ => true)) [f1; f2]) /\
+  route_lookup (fun _ _ => false) (run (fun _ => true) (fun _ _ => false) (map OAdd [f1; f2])) w_x_a_com [47; 97; 47; 98]%N [71]%N
+  = Some (mkroute (Some [49]%N) 0%Z false) /\
+  route_lookup (fun _ _ => false) (run (fun _ => true) (fun _ _ => false) (map OAdd [f2; f1])) w_x_a_com [47; 97; 47; 98]%N [71]%N
+  = Some (mkroute (Some [49]%N) 0%Z false).
+Proof.
+  cbv zeta. split.
+  - repeat constructor; cbn; try discriminate; eexists; reflexivity.
+  - split; [|split; vm_compute; reflexivity].
+    constructor; [|constructor; [intros []|constructor]].
+    intros [H|[]]. vm_compute in H. discriminate.
+Qed.
+
+(** three pre rules, the middle one removed: the two others keep their order *)
+Example pre_post_nonvacuous :
+  let p (c : N) (path : bytes) := mkfront Pre w_star_a_com 0%Z path None (Some [c]) None None in
+  let hist := [OAdd (p 48%N [47]%N); OAdd (p 49%N [47; 97]%N); OAdd (p 50%N [47; 98]%N); ODel (p 49%N [47; 97]%N)] in
+  map flat_route (s_pre (config (fun _ => true) hist))
+  = [mkroute (Some [48]%N) 0%Z false; mkroute (Some [50]%N) 0%Z false].
+Proof. vm_compute. reflexivity. Qed.
+
+(** a well-formed trie with an exact and a wild-card name *)
+Example trie_nonvacuous :
+  let t := fst (insert (fun _ => true) (fst (insert (fun _ => true) (root : trie Z) w_star_a_com 1%Z)) w_x_a_com 2%Z) in
+  wf Z t /\ good_key w_x_a_com /\
+  lookup (fun _ _ => false) t w_x_a_com true = Some (w_x_a_com, 2%Z) /\
+  lookup (fun _ _ => false) (fst (remove t w_x_a_com)) w_x_a_com true = Some (w_star_a_com, 1%Z).
+Proof.
+  cbv zeta. split.
+  - apply wf_insert_k; [repeat constructor; cbn; discriminate|].
+    apply wf_insert_k; [repeat constructor; cbn; discriminate|apply wf_root].
+  - split; [repeat constructor; cbn; discriminate|]. split; vm_compute; reflexivity.
 Qed.
